@@ -11,20 +11,19 @@
        well-formed image that means `pic` to a well-formed image that means `pic` (the C01_image theorems);
    (3) PIPELINE: perform_reductions, for every option vector with the two lossy switches off and every
        clock: the baseline and every candidate handed to the evaluator mean what the input means
-       (C01_reductions_lossless_partial) -- given the record `leaves`, which names exactly the
-       transformations whose image-level theorem is NOT yet proved in Coq (coverage of the
-       battiato reindexing; the mzeng sorter is proved: C01_image_mzeng);
+       (C01_reductions_lossless_partial). NOTHING is assumed about the reductions any more: the last two
+       leaves, the co-occurrence palette sorters, are proved (C01_image_mzeng, C01_image_battiato);
    (4) FILE TO FILE: from_slice reads a valid datastream the way the specification's whole-file decoder does
        (C01_input_parse_means: chunk walker = strict chunk parser, IDAT/IHDR/PLTE/tRNS collection, header
        and colour interpretation, PngImage::new), and optimize_from_memory returns the input bytes or the
        serialisation of a PngData that the specification decodes to the INPUT FILE's picture
-       (C01_file_to_file_partial; hypotheses: `leaves`, the zlib oracle, container side conditions on
+       (C01_file_to_file_partial; hypotheses: the zlib oracle, container side conditions on
        the written chunks, image size within usize, colour key within the sample range).
    Everything assumed is exercised on every run by the correspondence check and the specification oracle. *)
 From OxiVerif Require Import Base.Common Spec.Filter Spec.Adam7 Spec.Sem Model.Types Model.Options Model.BitDepth
   Model.ScanLines Model.Filters Model.Color Model.Palette Model.Reductions Model.Evaluate Model.Optimize
   Proofs.Bridge Proofs.PixelProofs Proofs.FilterProofs Proofs.ImageLift Proofs.LiftReductions Proofs.LiftColor
-  Proofs.LiftPalette Proofs.LiftLines Proofs.LiftBits Proofs.LiftInterlace Proofs.LiftDeinterlace Proofs.CoocMatrix Proofs.LiftMzeng Proofs.PipelineLossless Proofs.FilterStream Proofs.EmittedStream.
+  Proofs.LiftPalette Proofs.LiftLines Proofs.LiftBits Proofs.LiftInterlace Proofs.LiftDeinterlace Proofs.CoocMatrix Proofs.LiftMzeng Proofs.BattiatoLoop Proofs.LiftBattiato Proofs.PipelineLossless Proofs.FilterStream Proofs.EmittedStream.
 From OxiVerif Require Import Model.Interlace.
 From OxiVerif Require Import Spec.Decode Spec.DecodeFile Model.Headers Model.PngData Proofs.OutputProofs Proofs.OutputDecode Proofs.FileLevel Proofs.UnfilterImage Proofs.InputParse Proofs.FileToFile.
 
@@ -153,7 +152,7 @@ Proof. exact samecols_gsem. Qed.
 Print Assumptions C01_lift_samecols.
 
 (* ------------------------------------------------------------------ the reduction pipeline *)
-Theorem C01_reductions_lossless_partial : forall (L : leaves) e o img pic baseline evs,
+Theorem C01_reductions_lossless_partial : forall e o img pic baseline evs,
   optimize_alpha o = false -> scale_16 o = false ->
   means pic img ->
   perform_reductions e o img = Ok (baseline, evs) ->
@@ -163,7 +162,7 @@ Print Assumptions C01_reductions_lossless_partial.
 
 (* ... and so does the image of whatever candidate optimize_raw finally chooses: for every evaluator schedule, every compressor
    answer, every clock and every size limit *)
-Theorem C01_emitted_lossless_partial : forall (L : leaves) e o img max_size c pic,
+Theorem C01_emitted_lossless_partial : forall e o img max_size c pic,
   optimize_alpha o = false -> scale_16 o = false -> means pic img ->
   optimize_raw e o img max_size = Ok (Some c) -> means pic (c_image c).
 Proof. exact optimize_raw_lossless_partial. Qed.
@@ -172,7 +171,7 @@ Print Assumptions C01_emitted_lossless_partial.
 (* ... down to the IDAT content: what is written is the compressor's answer for a filtered stream which the SPECIFICATION's decoder
    (reconstruction of the filtered rows pass by pass, then the meaning of the image data) maps to the picture the input means -
    for all ten filter strategies, any Brute choice oracle, any compressor, schedule and clock *)
-Theorem C01_emitted_stream_partial : forall (L : leaves) e o img max_size c pic,
+Theorem C01_emitted_stream_partial : forall e o img max_size c pic,
   optimize_alpha o = false -> scale_16 o = false -> means pic img ->
   optimize_raw e o img max_size = Ok (Some c) ->
   exists d stream, c_cdata c = z_deflate e d stream /\
@@ -185,7 +184,7 @@ Print Assumptions C01_emitted_stream_partial.
    whole-file decoder (strict container parse with CRCs, IHDR, PLTE/tRNS, inflate, un-filtering, Adam7, colour) to the picture the
    input image means. Named side conditions: the decompressor undoes the compressor; chunk payloads < 2^31 bytes; no ancillary
    chunk is named IEND/PLTE/tRNS/IDAT; header fields fit their encodings. *)
-Theorem C01_file_decodes_partial : forall (L : leaves) e o img max_size c pic (inflate : list Z -> option (list Z)) (p' : pngdata),
+Theorem C01_file_decodes_partial : forall e o img max_size c pic (inflate : list Z -> option (list Z)) (p' : pngdata),
   optimize_alpha o = false -> scale_16 o = false -> means pic img ->
   optimize_raw e o img max_size = Ok (Some c) ->
   (forall d s, inflate (z_deflate e d s) = Some s) ->
@@ -247,7 +246,7 @@ Proof. exact from_slice_means. Qed.
 Print Assumptions C01_input_parse_means.
 
 (* FILE TO FILE: the whole in-memory entry point on the model *)
-Theorem C01_file_to_file_partial : forall (L : leaves) e o (inflate : list Z -> option (list Z)) bytes out pic nm ih rest,
+Theorem C01_file_to_file_partial : forall e o (inflate : list Z -> option (list Z)) bytes out pic nm ih rest,
   optimize_alpha o = false -> scale_16 o = false ->
   bytes_ok bytes ->
   spec_parse_png bytes = Some ((nm, ih) :: rest) ->
@@ -288,3 +287,18 @@ Theorem C01_cooccurrence_matrix : forall (n : nat) (lines : list scanline) m,
   co_occurrence_matrix n lines = Ok m -> cooc_inv n m (concat (map l_data lines)).
 Proof. exact co_occurrence_inv. Qed.
 Print Assumptions C01_cooccurrence_matrix.
+
+(* the battiato palette sorter: chains of vertices grown along the edges in order of weight. Over the complete edge list every pair
+   of vertices ends in one chain or has a black (interior) member; every chain keeps exactly two red (endpoint) members; hence a
+   single chain - chain 0 - finally holds every palette index exactly once *)
+Theorem C01_battiato_permutation : forall n edges c0, (2 <= n)%nat ->
+  (forall a b, In (a, b) edges <-> 0 <= a < b /\ b < Z.of_nat n) ->
+  battiato_reindex n edges = Ok c0 ->
+  NoDup c0 /\ (length c0 <= n)%nat /\ forall v, 0 <= v < Z.of_nat n -> In v c0.
+Proof. exact battiato_all_indices. Qed.
+Print Assumptions C01_battiato_permutation.
+
+Theorem C01_image_battiato : forall img r pic, wf img -> sem img = Some pic ->
+  sorted_palette_battiato img = Ok (Some r) -> sem r = Some pic /\ wf r.
+Proof. exact sorted_palette_battiato_sem. Qed.
+Print Assumptions C01_image_battiato.
